@@ -374,3 +374,119 @@ LEMMAS = [COMBI_IE, L.SmtLemma("I4-from-I1-I3", _lemma_I4,
 ASSUMPTIONS = [
     "level vectors stored in the index sets and passed in have length dim (key sort Array Int Int, canonical form outside [0,dim))",
 ]
+
+
+# --------------------------------------------------------------------------- get_coefficients_to_index_set (fixed dimension)
+import itertools as _it  # noqa: E402
+from pyvc.values import ObjSeq, DictV  # noqa: E402
+from pyvc.engine import Cl  # noqa: E402
+
+COEFF = z3.Function("COEFF", VSet, Vec, I, I, I)      # COEFF(P, k, lmin, dim) = sum over g in P of T(g, k): the fold that defines the coefficients
+
+
+def key_of(g_items, s):
+    """the tuple g+s as the executor represents it (canonical array)"""
+    arr = z3.K(I, z3.IntVal(0))
+    for i, (gi, si) in enumerate(zip(g_items, s)):
+        arr = z3.Store(arr, i, gi + si)
+    return arr
+
+
+def T(g, k, lmin, dim):
+    """contribution of index g to the coefficient of level vector k:  sum over s in stencil(g) of [g+s == k] * sgn(s),
+    stencil(g) = prod_i ({0} if g_i <= lmin else {0,-1}), sgn(s) = (-1)^(number of -1 entries)  (the Lean `coeff` summand)"""
+    gi = [z3.Select(g, i) for i in range(dim)]
+    total = z3.IntVal(0)
+    for s in _it.product([0, -1], repeat=dim):
+        allowed = z3.And(*[z3.BoolVal(True) if si == 0 else gi[i] > lmin for i, si in enumerate(s)])
+        sgn = (-1) ** sum(1 for si in s if si == -1)
+        total = total + z3.If(z3.And(allowed, k == key_of(gi, s)), sgn, 0)
+    return total
+
+
+def coeff_axioms(lmin, dim):
+    P, g, k = z3.Const("cP", VSet), z3.Const("cg", Vec), z3.Const("ck", Vec)
+    empty = z3.K(Vec, z3.BoolVal(False))
+    return [z3.ForAll([k], COEFF(empty, k, lmin, dim) == 0, patterns=[COEFF(empty, k, lmin, dim)]),
+            z3.ForAll([P, g, k], z3.Implies(z3.Not(z3.Select(P, g)), COEFF(z3.Store(P, g, True), k, lmin, dim) == COEFF(P, k, lmin, dim) + T(g, k, lmin, dim)),
+                      patterns=[COEFF(z3.Store(P, g, True), k, lmin, dim)])]
+
+
+class GetCoefficients(Contract):
+    file, qualname = FILE, "CombiScheme.get_coefficients_to_index_set"
+    inline = ("get_cross_product", "ComponentGridInfo.__init__")
+
+    def __init__(self, dim):
+        self.dim = dim
+        self.label = "CombiScheme.get_coefficients_to_index_set[dim=%d]" % dim
+        self.local_types = {
+            "grid_dict": lambda S: DictV(z3.K(Vec, z3.BoolVal(False)), z3.K(Vec, z3.IntVal(0))),
+            "grid_array": lambda S: ObjSeq("ComponentGridInfo", 0, dict(levelvector=z3.K(I, z3.K(I, z3.IntVal(0))), coefficient=z3.K(I, z3.IntVal(0)))),
+        }
+
+    def inputs(self, S):
+        lmin = S.int("lmin")
+        S.assume(lmin >= 0)
+        for ax in coeff_axioms(lmin, self.dim):
+            S.assume(ax)
+        s = Obj("CombiScheme", dict(dim=self.dim, lmin=lmin, initialized_adaptive=True))
+        return {"self": s, "index_set": S.set("index_set", Vec)}
+
+    def k2v(self, S, x):
+        return Seq("tuple", [z3.Select(x, i) for i in range(self.dim)])
+
+    def inv0(self, S, env, g):
+        k = z3.Const("ik", Vec)
+        lmin = env["self"].fields["lmin"]
+        d = env["grid_dict"]
+        ga = env["grid_array"]
+        return [("dict-holds-the-fold-over-the-processed-indices",
+                 z3.ForAll([k], COEFF(g["processed"].arr, k, lmin, self.dim) == z3.If(z3.Select(d.dom, k), z3.Select(d.val, k), 0),
+                           patterns=[z3.Select(d.dom, k), z3.Select(d.val, k), COEFF(g["processed"].arr, k, lmin, self.dim)])),
+                ("result-list-still-empty", V_(ga.length) == 0)]
+
+    def inv3(self, S, env, g):
+        d = env["grid_dict"]
+        ga = env["grid_array"]
+        lv, cf = ga.fields["levelvector"], ga.fields["coefficient"]
+        Q = g["processed"].arr
+        t, u = z3.Ints("it iu")
+        n = V_(ga.length)
+        k = z3.Const("ik3", Vec)
+        lmin = env["self"].fields["lmin"]
+        I_ = S.ex.old["index_set"].arr
+        return [("entries-are-processed-nonzero-dict-items", z3.ForAll([t], z3.Implies(z3.And(t >= 0, t < n), z3.And(
+                    z3.Select(Q, z3.Select(lv, t)), z3.Select(d.dom, z3.Select(lv, t)), z3.Select(cf, t) == z3.Select(d.val, z3.Select(lv, t)), z3.Select(cf, t) != 0)),
+                    patterns=[z3.Select(lv, t), z3.Select(cf, t)])),
+                ("level-vectors-distinct", z3.ForAll([t, u], z3.Implies(z3.And(t >= 0, t < u, u < n), z3.Select(lv, t) != z3.Select(lv, u)))),
+                ("length-nonneg", n >= 0),
+                ("dict-is-the-fold-over-the-index-set", z3.ForAll([k], COEFF(I_, k, lmin, self.dim) == z3.If(z3.Select(d.dom, k), z3.Select(d.val, k), 0),
+                                                                 patterns=[z3.Select(d.dom, k), z3.Select(d.val, k)]))]
+
+    @property
+    def loops(self):
+        # loop ordinals in source order: 0 = over index_set, 1 = over dims (unrolled), 2 = over stencil elements (unrolled), 3 = over dict items
+        return {0: Loop(inv=lambda S, env, g: self.inv0(S, env, g), key_to_value=lambda S, x: self.k2v(S, x)),
+                3: Loop(inv=lambda S, env, g: self.inv3(S, env, g))}
+
+    def post(self, S, old, env, result):
+        if not isinstance(result, ObjSeq):
+            return [Cl("returns-component-grid-list", False, prop=True)]
+        lv, cf = result.fields["levelvector"], result.fields["coefficient"]
+        n = V_(result.length)
+        t, u = z3.Ints("pt pu")
+        lmin = old["self"].fields["lmin"]
+        I_ = old["index_set"].arr
+        return [Cl("returns-component-grid-list", True, prop=True),
+                Cl("coefficients-are-the-inclusion-exclusion-fold-over-the-index-set", z3.ForAll([t], z3.Implies(z3.And(t >= 0, t < n),
+                   z3.And(z3.Select(cf, t) == COEFF(I_, z3.Select(lv, t), lmin, self.dim), z3.Select(cf, t) != 0))), prop=True),
+                Cl("each-level-vector-returned-once", z3.ForAll([t, u], z3.Implies(z3.And(t >= 0, t < u, u < n), z3.Select(lv, t) != z3.Select(lv, u))), prop=True)]
+
+
+def V_(x):
+    return z3.IntVal(x) if isinstance(x, int) else x
+
+
+CONTRACTS += [GetCoefficients(1), GetCoefficients(2)]
+ASSUMPTIONS += ["get_coefficients_to_index_set verified for dim in {1,2} (stencil loops unrolled; index set arbitrary); COEFF is the fold of the Lean `coeff` summand over the set "
+                "(well defined because the sum is commutative; iteration order arbitrary, A-ITER); completeness of the returned list (every non-zero coefficient appears) is layer B"]
